@@ -341,6 +341,26 @@ func (bc *BasicCluster) CheckAndPutRegion(region *RegionInfo) []*RegionInfo {
 	return bc.PutRegion(region)
 }
 
+// CheckAndPutLoadedRegion is CheckAndPutRegion for a region that was read back from storage (the callback of
+// Storage.LoadRegions / LoadRegionsOnce); what it returns is deleted from storage by the load. The cluster can
+// outlive a load (a member that is elected again, a follower that follows a new leader), so the cache may already
+// hold a newer version of the very region that was read: its save failed, or lost against a concurrent one.
+// That record shares its key with the live region, so it is brought up to date through refresh instead of being
+// deleted; otherwise the served region would have no record at all until its epoch changes again.
+func (bc *BasicCluster) CheckAndPutLoadedRegion(region *RegionInfo, refresh func(*metapb.Region) error) []*RegionInfo {
+	toDelete := bc.CheckAndPutRegion(region)
+	if len(toDelete) == 1 && toDelete[0] == region {
+		if cached := bc.GetRegion(region.GetID()); cached != nil {
+			if err := refresh(cached.GetMeta()); err != nil {
+				log.Warn("failed to refresh the stale record of a cached region",
+					zap.Uint64("region-id", region.GetID()), errs.ZapError(err))
+			}
+			return nil
+		}
+	}
+	return toDelete
+}
+
 // RemoveRegion removes RegionInfo from regionTree and regionMap.
 func (bc *BasicCluster) RemoveRegion(region *RegionInfo) {
 	bc.Lock()
